@@ -30,6 +30,7 @@ import (
 	"sync"
 	"syscall"
 	"time"
+	"unsafe"
 
 	"github.com/zeebo/xxh3"
 
@@ -48,7 +49,11 @@ func init() {
 		"a command that is a `task:` call of a helper with a `test -f` precondition, failing — also under --dry — while the file is missing; " +
 		"SIGKILL at a command boundary); c04: twin tasks with the same display name (equal labels, a label equal to the other's name) run one after the other; " +
 		"c05: boundary-shift pairs (a rename plus an edit that moves bytes between a file's name and the content next to it, also across two adjacent files) " +
-		"between two runs; non-trivial = history with at least one skip, failure, kill or declined prompt; distinct by case"
+		"between two runs; c04/c05: sources reached through SYMBOLIC LINKS (a matched path that is a link to a file outside the project, files below a directory " +
+		"that is a link; edits and touches go to the target, the link keeps its old mtime), as a rendering choice of any case and as a directed stream; " +
+		"c04: a run CANCELLED BY A FAILING SIBLING between the up-to-date check and the first command (parent with deps [failing task, this task], the task's " +
+		"status command waits on a gate file until the sibling is about to fail); all: `silent: true` on commands / task: calls / tasks / the Taskfile and " +
+		"--silent on --dry / --status / --summary as rendering choices (silence never changes what runs); non-trivial = history with at least one skip, failure, kill or declined prompt; distinct by case"
 	domains["fingerhist-c04"] = domain{func(c *Ctx) { runFingerHist(c, "c04") }, rule}
 	domains["fingerhist-c05"] = domain{func(c *Ctx) { runFingerHist(c, "c05") }, rule}
 	domains["fingerhist-c12"] = domain{func(c *Ctx) { runFingerHist(c, "c12") }, rule}
@@ -258,6 +263,9 @@ type fhCmd struct {
 	// (path relative to the project root) and whose single command is this one.  The call fails before
 	// anything runs when the file is missing — also under --dry, where preconditions are still evaluated.
 	Need string `json:"need,omitempty"`
+	// RENDERING only (no effect on what runs, not part of the case line): the command — or the `task:`
+	// call — carries `silent: true`
+	Silent bool `json:"silent,omitempty"`
 }
 
 type fhTask struct {
@@ -270,6 +278,7 @@ type fhTask struct {
 	Generates []fhGlob `json:"generates,omitempty"` // relative to the task dir
 	Status    []string `json:"status,omitempty"`    // files tested with `test -f`, relative to the project root
 	Cmds      []fhCmd  `json:"cmds"`
+	Silent    bool     `json:"silent,omitempty"` // RENDERING only: `silent: true` on the task
 }
 
 type fhStep struct {
@@ -285,11 +294,28 @@ type fhStep struct {
 	Content string `json:"content,omitempty"`
 	Mtime   int64  `json:"mtime,omitempty"`
 	Dir     string `json:"dir,omitempty"`
+	Silent  bool   `json:"silent,omitempty"` // RENDERING only: the invocation gets `--silent`
+	// Sib (mode run, a task with sources AND status): the task runs as a DEPENDENCY of a parent next to a
+	// sibling that fails while this task's `status:` commands are running (they wait on a gate file the
+	// sibling creates just before it exits 1): cancelled between the up-to-date check and the first command
+	Sib bool `json:"sib,omitempty"`
 }
 
+// The fields below `Steps` are RENDERING choices: they change how the abstract case is laid out on
+// disk / written as YAML, never the case line the model sees.
+//
+//	LinkFiles  root-relative paths that exist as SYMBOLIC LINKS to regular files kept outside the project
+//	           (<work>/shared/…): content and mtime of the path are those of the target; writes and touches
+//	           go to the target, delete / move act on the link (whose own mtime is the logical time 0)
+//	LinkDirs   root-relative directories created as symbolic links to directories outside the project
+//	           (the real expander follows them, also below `**`)
+//	SilentFile `silent: true` at the top of the root Taskfile
 type fhCase struct {
-	Tasks []fhTask `json:"tasks"`
-	Steps []fhStep `json:"steps"`
+	Tasks      []fhTask `json:"tasks"`
+	Steps      []fhStep `json:"steps"`
+	LinkFiles  []string `json:"link_files,omitempty"`
+	LinkDirs   []string `json:"link_dirs,omitempty"`
+	SilentFile bool     `json:"silent_file,omitempty"`
 }
 
 var fhModes = map[string]int{"run": 0, "force": 1, "dry": 2, "status": 3, "listjson": 4, "list": 5, "summary": 6}
@@ -330,6 +356,9 @@ type fhRun struct {
 	gbits   []bool
 	viol    []fhViol
 	err     string
+	linkF   map[string]bool // root-relative paths rendered as symbolic links to files
+	linkD   map[string]bool // root-relative directories rendered as symbolic links
+	nShared int
 }
 
 type fhViol struct {
@@ -396,6 +425,9 @@ func yamlQ(s string) string { return "'" + strings.ReplaceAll(s, "'", "''") + "'
 func (r *fhRun) writeTaskfiles() {
 	var rootB, incB strings.Builder
 	rootB.WriteString("version: '3'\n")
+	if r.d.SilentFile {
+		rootB.WriteString("silent: true\n")
+	}
 	incB.WriteString("version: '3'\ntasks:\n")
 	ns := ""
 	for _, t := range r.d.Tasks {
@@ -429,6 +461,9 @@ func (r *fhRun) writeTaskfiles() {
 		}
 		if t.Prompt {
 			b.WriteString("    prompt: 'continue?'\n")
+		}
+		if t.Silent {
+			b.WriteString("    silent: true\n")
 		}
 		// patterns given through task variables
 		nv := 0
@@ -467,13 +502,24 @@ func (r *fhRun) writeTaskfiles() {
 		}
 		if len(t.Status) > 0 {
 			b.WriteString("    status:\n")
-			for _, s := range t.Status {
+			for k, s := range t.Status {
+				if k == 0 {
+					// with $GATE set (a `Sib` step): tell the sibling we are here, wait until it is about to fail,
+					// then keep busy until the cancellation arrives
+					fmt.Fprintf(b, "      - |\n        if [ -n \"$GATE\" ]; then : > \"$GATE.ready\"; while [ ! -f \"$GATE\" ]; do sleep 0.05; done; sleep 5; fi\n        test -f \"$R/%s\"\n", s)
+					continue
+				}
 				fmt.Fprintf(b, "      - test -f \"$R/%s\"\n", s)
 			}
 		}
 		b.WriteString("    cmds:\n")
 		body := func(k int, c fhCmd, indent string) {
-			fmt.Fprintf(b, "%s- |\n", indent)
+			if c.Silent && c.Need == "" {
+				fmt.Fprintf(b, "%s- silent: true\n%s  cmd: |\n", indent, indent)
+				indent += "  "
+			} else {
+				fmt.Fprintf(b, "%s- |\n", indent)
+			}
 			fmt.Fprintf(b, "%s  if [ \"$KILL_AT\" = \"%d\" ]; then sh -c 'kill -KILL $PPID'; sleep 30; fi\n", indent, k)
 			fmt.Fprintf(b, "%s  printf '%%s\\n' %d >> \"$TRACE\"\n", indent, k)
 			fmt.Fprintf(b, "%s  if [ \"$FAIL_AT\" = \"%d\" ]; then exit 1; fi\n", indent, k)
@@ -484,9 +530,17 @@ func (r *fhRun) writeTaskfiles() {
 		for k, c := range t.Cmds {
 			if c.Need != "" {
 				fmt.Fprintf(b, "      - task: zh%d-%d\n", i, k)
+				if c.Silent {
+					b.WriteString("        silent: true\n")
+				}
 				continue
 			}
 			body(k, c, "      ")
+		}
+		// the parent and the failing sibling of a `Sib` step: same file as the task
+		if len(t.Status) > 0 && len(t.Sources) > 0 {
+			fmt.Fprintf(b, "  zs%d:\n    deps: [zf%d, %s]\n", i, i, yamlQ(name))
+			fmt.Fprintf(b, "  zf%d:\n    cmds:\n      - |\n        n=0; while [ ! -f \"$GATE.ready\" ] && [ $n -lt 200 ]; do sleep 0.05; n=$((n+1)); done\n        : > \"$GATE\"; exit 1\n", i)
 		}
 		// the helpers of the `task:` calls: same file (a call inside an included file names a task of
 		// that file), internal, no sources / dir / prompt: precondition, then the command itself
@@ -595,7 +649,7 @@ func (r *fhRun) caseLine(src, gen [][][]int) string {
 	for _, s := range r.d.Steps {
 		switch s.Kind {
 		case "inv":
-			fmt.Fprintf(&sb, " I %d %d %d %s %d %d", s.Task, fhModes[s.Mode], s.Now, b2s(s.Yes), s.Fail+1, s.Kill+1)
+			fmt.Fprintf(&sb, " I %d %d %d %s %d %d %s", s.Task, fhModes[s.Mode], s.Now, b2s(s.Yes), s.Fail+1, s.Kill+1, b2s(s.Sib))
 		case "write":
 			fmt.Fprintf(&sb, " W %d %s %d", r.pid[s.Path], hx(s.Content), s.Mtime)
 		case "touch":
@@ -626,13 +680,10 @@ func (r *fhRun) snapshot() fhSnap {
 		txt string
 	}
 	var fs []fe
-	filepath.Walk(r.root, func(p string, info os.FileInfo, err error) error {
-		if err != nil || info.IsDir() {
-			return nil
-		}
+	r.walk(func(p string, info os.FileInfo) {
 		rel := relTo(r.root, p)
 		if rel == "Taskfile.yml" || rel == "Inc.yml" {
-			return nil
+			return
 		}
 		lt := info.ModTime().Unix() - fhEpoch
 		switch {
@@ -649,7 +700,6 @@ func (r *fhRun) snapshot() fhSnap {
 				s.extra = append(s.extra, "X"+hx(rel))
 			}
 		}
-		return nil
 	})
 	sort.Slice(fs, func(i, j int) bool { return fs[i].id < fs[j].id })
 	for _, f := range fs {
@@ -795,12 +845,95 @@ func (r *fhRun) goodRun(i int) (good bool, matched *fhAttempt) {
 	return false, nil
 }
 
+// walk visits every file below the project root, FOLLOWING symbolic links: a link to a regular file is
+// reported with the target's FileInfo (the path stands for its target), a link to a directory is
+// descended into; a dangling link is reported with its own (Lstat) info.
+func (r *fhRun) walk(fn func(abs string, info os.FileInfo)) {
+	var rec func(dir string, depth int)
+	rec = func(dir string, depth int) {
+		es, err := os.ReadDir(dir)
+		if err != nil || depth > 12 {
+			return
+		}
+		for _, e := range es {
+			p := filepath.Join(dir, e.Name())
+			li, err := os.Lstat(p)
+			if err != nil {
+				continue
+			}
+			info := li
+			if li.Mode()&os.ModeSymlink != 0 {
+				if st, err := os.Stat(p); err == nil {
+					info = st
+				}
+			}
+			if info.IsDir() {
+				rec(p, depth+1)
+				continue
+			}
+			fn(p, info)
+		}
+	}
+	rec(r.root, 0)
+}
+
+// mkParents creates the directories above the root-relative path p; a directory listed in LinkDirs is
+// created as a symbolic link to a fresh directory outside the project.
+func (r *fhRun) mkParents(p string) {
+	parts := strings.Split(filepath.ToSlash(filepath.Dir(p)), "/")
+	cur := ""
+	for _, part := range parts {
+		if part == "." || part == "" {
+			continue
+		}
+		if cur == "" {
+			cur = part
+		} else {
+			cur = cur + "/" + part
+		}
+		abs := filepath.Join(r.root, cur)
+		if _, err := os.Stat(abs); err == nil {
+			continue
+		}
+		if r.linkD[cur] {
+			r.nShared++
+			target := filepath.Join(r.work, "shared", fmt.Sprintf("d%d", r.nShared))
+			os.MkdirAll(target, 0o755)
+			os.Remove(abs) // a dangling leftover
+			os.Symlink(target, abs)
+			continue
+		}
+		os.Mkdir(abs, 0o755)
+	}
+}
+
+// lutimes sets the modification time of a symbolic link ITSELF (utimensat with AT_SYMLINK_NOFOLLOW)
+func lutimes(path string, sec int64) {
+	ts := [2]syscall.Timespec{{Sec: sec}, {Sec: sec}}
+	b, err := syscall.BytePtrFromString(path)
+	if err != nil {
+		return
+	}
+	const atFdcwd, atSymlinkNofollow = -100, 0x100
+	fd := atFdcwd
+	syscall.Syscall6(syscall.SYS_UTIMENSAT, uintptr(fd), uintptr(unsafe.Pointer(b)), uintptr(unsafe.Pointer(&ts[0])), atSymlinkNofollow, 0, 0)
+}
+
 func (r *fhRun) applyOp(s fhStep) {
 	p := filepath.Join(r.root, s.Path)
 	switch s.Kind {
 	case "write":
-		os.MkdirAll(filepath.Dir(p), 0o755)
-		os.WriteFile(p, []byte(s.Content), 0o644)
+		r.mkParents(s.Path)
+		if _, err := os.Lstat(p); err != nil && r.linkF[s.Path] {
+			// a fresh symbolic link to a fresh file outside the project; its own mtime is logical time 0
+			r.nShared++
+			target := filepath.Join(r.work, "shared", fmt.Sprintf("f%d", r.nShared))
+			os.MkdirAll(filepath.Dir(target), 0o755)
+			os.WriteFile(target, nil, 0o644)
+			os.Symlink(target, p)
+			lutimes(p, fhEpoch)
+		}
+		os.WriteFile(p, []byte(s.Content), 0o644) // through the link, if it is one
 		tm := time.Unix(fhEpoch+s.Mtime, 0)
 		os.Chtimes(p, tm, tm)
 	case "touch":
@@ -813,12 +946,26 @@ func (r *fhRun) applyOp(s fhStep) {
 	case "move":
 		if _, err := os.Stat(p); err == nil {
 			q := filepath.Join(r.root, s.To)
-			os.MkdirAll(filepath.Dir(q), 0o755)
+			r.mkParents(s.To)
 			os.Rename(p, q)
 		}
 	case "rmdir":
 		os.RemoveAll(filepath.Join(r.root, s.Dir))
 	}
+}
+
+func fileExists(p string) bool { _, err := os.Stat(p); return err == nil }
+
+// invokeRaw runs the binary once, outside the history (a read-only probe); nil = exit status 0
+func (r *fhRun) invokeRaw(args []string, fail, kill string) error {
+	ctx, cancel := context.WithTimeout(context.Background(), 25*time.Second)
+	defer cancel()
+	cmd := exec.CommandContext(ctx, r.bin, args...)
+	cmd.Dir = r.root
+	cmd.Env = []string{"PATH=/usr/local/bin:/usr/bin:/bin", "HOME=" + filepath.Join(r.work, "home"), "NO_COLOR=1",
+		"TRACE=" + filepath.Join(r.work, "trace-probe"), "R=" + r.root, "FAIL_AT=" + fail, "KILL_AT=" + kill}
+	cmd.WaitDelay = 2 * time.Second
+	return cmd.Run()
 }
 
 type fhInv struct {
@@ -834,8 +981,32 @@ func (r *fhRun) invoke(s fhStep) fhInv {
 	if s.Yes {
 		args = append(args, "--yes")
 	}
+	if s.Silent {
+		args = append(args, "--silent")
+	}
+	// `silent` on the task / the Taskfile / the command line also suppresses `Task "x" is up to date`
+	hidden := s.Silent || t.Silent || r.d.SilentFile
+	probe := false
+	if hidden && s.Mode == "dry" {
+		// what a silenced --dry decides is not printed: ask --status (the same check, also dry) first
+		probe = r.invokeRaw([]string{"--status", t.Name}, "", "") == nil
+	}
+	gate := ""
 	switch s.Mode {
 	case "run":
+		if s.Sib {
+			// the parent `zs<i>` lives in the file of the task: `ns:zs<i>` for an included one
+			ti := s.Task % len(r.d.Tasks)
+			parent := fmt.Sprintf("zs%d", ti)
+			if j := strings.Index(t.Name, ":"); j > 0 {
+				parent = t.Name[:j+1] + parent
+			}
+			gate = filepath.Join(r.work, "gate")
+			os.Remove(gate)
+			os.Remove(gate + ".ready")
+			args = append(args, parent)
+			break
+		}
 		args = append(args, t.Name)
 	case "force":
 		args = append(args, "--force", t.Name)
@@ -864,7 +1035,7 @@ func (r *fhRun) invoke(s fhStep) fhInv {
 		kill = strconv.Itoa(s.Kill)
 	}
 	cmd.Env = []string{"PATH=/usr/local/bin:/usr/bin:/bin", "HOME=" + filepath.Join(r.work, "home"), "NO_COLOR=1",
-		"TRACE=" + trace, "R=" + r.root, "FAIL_AT=" + fail, "KILL_AT=" + kill}
+		"TRACE=" + trace, "R=" + r.root, "FAIL_AT=" + fail, "KILL_AT=" + kill, "GATE=" + gate}
 	var so, se bytes.Buffer
 	cmd.Stdout, cmd.Stderr = &so, &se
 	cmd.WaitDelay = 2 * time.Second
@@ -896,6 +1067,14 @@ func (r *fhRun) invoke(s fhStep) fhInv {
 		}
 	}
 	o.skipped = strings.Contains(se.String(), "is up to date")
+	if hidden {
+		switch s.Mode {
+		case "run":
+			o.skipped = o.exit == "ok" && !fileExists(trace) // every task has a command, every command traces
+		case "dry":
+			o.skipped = o.exit == "ok" && probe
+		}
+	}
 	if b, err := os.ReadFile(trace); err == nil {
 		for _, ln := range strings.Fields(string(b)) {
 			k, _ := strconv.Atoi(ln)
@@ -925,14 +1104,10 @@ func (r *fhRun) invoke(s fhStep) fhInv {
 	// rebase every mtime produced during the invocation to the logical time of the step
 	lo, hi := t0.Unix()-1, t1.Unix()+1
 	tm := time.Unix(fhEpoch+s.Now, 0)
-	filepath.Walk(r.root, func(p string, info os.FileInfo, err error) error {
-		if err != nil || info.IsDir() {
-			return nil
-		}
+	r.walk(func(p string, info os.FileInfo) {
 		if u := info.ModTime().Unix(); u >= lo && u <= hi {
 			os.Chtimes(p, tm, tm)
 		}
-		return nil
 	})
 	return o
 }
@@ -1240,7 +1415,14 @@ func newFhRun(d fhCase) *fhRun {
 	work := filepath.Join(fingerWork(), fmt.Sprintf("h%d-%d", os.Getpid(), n))
 	os.RemoveAll(work)
 	r := &fhRun{d: d, work: work, root: filepath.Join(work, "proj"), bin: os.Getenv("VERIF_TASK_BIN"),
-		pid: map[string]int{}, did: map[string]int{}, dict: map[string]string{}, writer: map[string]int{}}
+		pid: map[string]int{}, did: map[string]int{}, dict: map[string]string{}, writer: map[string]int{},
+		linkF: map[string]bool{}, linkD: map[string]bool{}}
+	for _, p := range d.LinkFiles {
+		r.linkF[p] = true
+	}
+	for _, p := range d.LinkDirs {
+		r.linkD[p] = true
+	}
 	r.paths, r.dirs = fhUniverse(d)
 	for i, p := range r.paths {
 		r.pid[p] = i
@@ -1459,10 +1641,167 @@ func (g *fhGen) genShift() fhCase {
 	return d
 }
 
+// genLinks: the SYMLINK stream (c04, c05).  One task of either method whose sources are reached through
+// symbolic links — a matched path that is a link to a file outside the project, or a file below a
+// directory that is a link —; after a successful run the TARGET is edited or merely touched (the link
+// itself keeps its old mtime), then the task runs again: it must rebuild.  Renaming and deleting act on
+// the link.
+func (g *fhGen) genLinks() fhCase {
+	rng := g.c.Rng
+	t := fhTask{Name: g.pick([]string{"x", "y", "a-b", "a_b"}), Cmds: []fhCmd{{}}}
+	switch rng.Intn(3) {
+	case 0:
+		t.Method = "timestamp"
+	case 1:
+		t.Method = "checksum"
+	}
+	root := ""
+	if g.chance(25) {
+		t.Dir = "sub"
+		root = "sub/"
+	}
+	pat := g.pick([]string{"*.e", "**/*.e", "d/*", "d/*.e", "**/a.*"})
+	t.Sources = []fhGlob{{Glob: pat}}
+	var files []string
+	switch pat {
+	case "*.e":
+		files = []string{"a.e", "b.e"}
+	case "d/*", "d/*.e":
+		files = []string{"d/a.e", "d/b.e"}
+	default:
+		files = []string{"a.e", "d/a.e", "e/a.e"}
+	}
+	if g.chance(40) {
+		o := root + "out0_0.o"
+		t.Cmds[0].Writes = []fhWrite{{Path: o, Content: "o"}}
+		if g.chance(60) {
+			t.Generates = []fhGlob{{Glob: "out0_0.o"}}
+		}
+	}
+	var d fhCase
+	d.Tasks = []fhTask{t}
+	for _, f := range files {
+		if g.chance(70) {
+			d.LinkFiles = append(d.LinkFiles, root+f)
+		}
+	}
+	for _, sub := range []string{"d", "e"} {
+		if g.chance(35) {
+			d.LinkDirs = append(d.LinkDirs, root+sub)
+		}
+	}
+	if len(d.LinkFiles) == 0 && len(d.LinkDirs) == 0 {
+		d.LinkFiles = []string{root + files[0]}
+	}
+	add := func(st fhStep) {
+		st.Fail, st.Kill = -1, -1
+		switch st.Kind {
+		case "inv":
+			st.Yes, st.Now = true, int64(1000*(len(d.Steps)+1))
+		case "write", "touch":
+			st.Mtime = int64(1000*len(d.Steps) + 500)
+		}
+		d.Steps = append(d.Steps, st)
+	}
+	for _, f := range files {
+		if g.chance(75) || len(d.Steps) == 0 {
+			add(fhStep{Kind: "write", Path: root + f, Content: g.content()})
+		}
+	}
+	add(fhStep{Kind: "inv", Mode: "run"})
+	for n := 1 + rng.Intn(2); n > 0; n-- {
+		f := root + g.pick(files)
+		switch r := rng.Intn(100); {
+		case r < 40:
+			add(fhStep{Kind: "write", Path: f, Content: g.content() + "z"})
+		case r < 75:
+			add(fhStep{Kind: "touch", Path: f})
+		case r < 88:
+			add(fhStep{Kind: "move", Path: f, To: root + g.pick(files)})
+		default:
+			add(fhStep{Kind: "delete", Path: f})
+		}
+		add(fhStep{Kind: "inv", Mode: g.pick([]string{"run", "run", "run", "status", "dry"})})
+	}
+	if g.chance(50) {
+		add(fhStep{Kind: "inv", Mode: "run"})
+	}
+	return d
+}
+
+// genSibling: the CANCELLED-BY-A-SIBLING stream (c04).  One task with sources and a `status:` file, of
+// either method; the source and the status file are in place; optionally a first successful run and an
+// edit; then the task runs as a dependency next to a sibling that fails while the task's status command
+// is still running: the up-to-date check has recorded the new fingerprint, the first command is refused.
+// The runs that follow must NOT report the task up to date on account of that attempt.
+func (g *fhGen) genSibling() fhCase {
+	rng := g.c.Rng
+	t := fhTask{Name: g.pick([]string{"x", "y", "a-b", "a:b", "a_b"}), Cmds: []fhCmd{{}}}
+	switch rng.Intn(3) {
+	case 0:
+		t.Method = "timestamp"
+	case 1:
+		t.Method = "checksum"
+	}
+	root := ""
+	if !strings.Contains(t.Name, ":") && g.chance(25) {
+		t.Dir = "sub"
+		root = "sub/"
+	}
+	if g.chance(20) {
+		t.Label = g.pick([]string{"L", "lab el"})
+	}
+	t.Prompt = g.chance(20)
+	t.Sources = []fhGlob{{Glob: g.pick([]string{"a.e", "*.e", "**/*.e"})}}
+	flag := root + "ok0.f"
+	t.Status = []string{flag}
+	if g.chance(50) {
+		o := root + "out0_0.o"
+		t.Cmds[0].Writes = []fhWrite{{Path: o, Content: "o"}}
+		if g.chance(60) {
+			t.Generates = []fhGlob{{Glob: "out0_0.o"}}
+		}
+	}
+	if g.chance(40) {
+		t.Cmds = append(t.Cmds, fhCmd{})
+	}
+	var d fhCase
+	d.Tasks = []fhTask{t}
+	add := func(st fhStep) {
+		st.Fail, st.Kill = -1, -1
+		switch st.Kind {
+		case "inv":
+			st.Yes, st.Now = true, int64(1000*(len(d.Steps)+1))
+		case "write", "touch":
+			st.Mtime = int64(1000*len(d.Steps) + 500)
+		}
+		d.Steps = append(d.Steps, st)
+	}
+	src := root + "a.e"
+	add(fhStep{Kind: "write", Path: src, Content: g.content()})
+	add(fhStep{Kind: "write", Path: flag, Content: "f"})
+	if g.chance(55) {
+		add(fhStep{Kind: "inv", Mode: g.pick([]string{"run", "run", "force"})})
+		add(fhStep{Kind: "write", Path: src, Content: g.content() + "s"})
+	}
+	add(fhStep{Kind: "inv", Mode: "run", Sib: true})
+	add(fhStep{Kind: "inv", Mode: g.pick([]string{"run", "run", "status", "listjson", "dry"})})
+	if g.chance(50) {
+		add(fhStep{Kind: "inv", Mode: "run"})
+	}
+	return d
+}
+
 func (g *fhGen) gen(maxLen int) fhCase {
 	rng := g.c.Rng
+	if g.prop == "c04" && g.chance(5) {
+		return g.genSibling()
+	}
 	if g.prop == "c05" && g.chance(8) {
 		return g.genShift()
+	}
+	if (g.prop == "c05" || g.prop == "c04") && g.chance(6) {
+		return g.genLinks()
 	}
 	var d fhCase
 	nt := 1 + rng.Intn(3)
@@ -1761,6 +2100,11 @@ func (g *fhGen) gen(maxLen int) fhCase {
 			s.Mode = "run"
 		}
 		s.Yes = !t.Prompt && g.chance(20) || t.Prompt && g.chance(60)
+		if s.Mode == "run" && g.prop == "c04" && len(t.Status) > 0 && len(t.Sources) > 0 && g.chance(12) {
+			s.Sib, s.Yes = true, true
+			d.Steps = append(d.Steps, s)
+			continue
+		}
 		if s.Mode == "run" || s.Mode == "force" {
 			failPct, killPct := 18, 10
 			if g.prop != "c04" {
@@ -1775,6 +2119,62 @@ func (g *fhGen) gen(maxLen int) fhCase {
 		d.Steps = append(d.Steps, s)
 	}
 	return d
+}
+
+// decorate draws the RENDERING choices of a generated case (they never reach the case line):
+//
+//   - symbolic links: source files (`*.e`, `*.x` paths of the universe) that exist as links to files kept
+//     outside the project, and the directories `d` / `e` of a task root as links to outside directories —
+//     an edit or a touch then changes the TARGET, which is what both methods must look at;
+//   - silence: `silent: true` on commands, `task:` calls, tasks, the root Taskfile, and `--silent` on
+//     read-only invocations — silence changes what is printed, never what runs, in particular not under
+//     --dry.
+func (g *fhGen) decorate(d *fhCase) {
+	rng := g.c.Rng
+	if g.chance(30) {
+		paths, _ := fhUniverse(*d)
+		roots := map[string]bool{"": true}
+		for _, t := range d.Tasks {
+			if t.Dir != "" {
+				roots[t.Dir+"/"] = true
+			}
+		}
+		for _, p := range paths {
+			if (strings.HasSuffix(p, ".e") || strings.HasSuffix(p, ".x") || strings.Contains(p, "/d/") || strings.HasPrefix(p, "d/")) &&
+				!strings.HasSuffix(p, ".o") && !strings.HasSuffix(p, ".f") && g.chance(45) {
+				d.LinkFiles = append(d.LinkFiles, p)
+			}
+		}
+		var rs []string
+		for r := range roots {
+			rs = append(rs, r)
+		}
+		sort.Strings(rs)
+		for _, r := range rs {
+			for _, sub := range []string{"d", "e"} {
+				if g.chance(25) {
+					d.LinkDirs = append(d.LinkDirs, r+sub)
+				}
+			}
+		}
+	}
+	if g.chance(35) {
+		for i := range d.Tasks {
+			t := &d.Tasks[i]
+			t.Silent = g.chance(25)
+			for k := range t.Cmds {
+				t.Cmds[k].Silent = g.chance(40)
+			}
+		}
+		d.SilentFile = g.chance(15)
+		for k := range d.Steps {
+			// (`--list[-all] --silent` is another query — it prints the task names only — so the flag goes on
+			// --dry / --status / --summary)
+			if st := &d.Steps[k]; st.Kind == "inv" && (st.Mode == "dry" || st.Mode == "status" || st.Mode == "summary") {
+				st.Silent = rng.Intn(100) < 30
+			}
+		}
+	}
 }
 
 func fhHasInv(ss []fhStep) bool {
@@ -1809,6 +2209,7 @@ func runFingerHist(c *Ctx, prop string) {
 	cases := make([]fhCase, n)
 	for i := range cases {
 		cases[i] = g.gen(maxLen)
+		g.decorate(&cases[i])
 	}
 	results := make([][]fhLine, n)
 	var wg sync.WaitGroup
@@ -1827,10 +2228,26 @@ func runFingerHist(c *Ctx, prop string) {
 	for i, d := range cases {
 		lines := results[i]
 		interesting := false
+		if len(d.LinkFiles) > 0 {
+			c.Hit("render:symlinked-source-files")
+		}
+		if len(d.LinkDirs) > 0 {
+			c.Hit("render:symlinked-directories")
+		}
+		if d.SilentFile {
+			c.Hit("render:silent-taskfile")
+		}
 		for _, s := range d.Steps {
 			steps++
 			if s.Kind == "inv" {
 				c.Hit("mode:" + s.Mode)
+				if s.Silent {
+					c.Hit("render:--silent")
+				}
+				if s.Sib {
+					c.Hit("env:cancelled-by-sibling")
+					interesting = true
+				}
 				if s.Fail >= 0 {
 					c.Hit("env:fail")
 					interesting = true
@@ -1862,6 +2279,17 @@ func runFingerHist(c *Ctx, prop string) {
 			}
 			if strings.Contains(t.Name, ":") {
 				c.Hit("shape:included")
+			}
+			if t.Silent {
+				c.Hit("render:silent-task")
+			}
+			for _, cm := range t.Cmds {
+				if cm.Silent && cm.Need == "" {
+					c.Hit("render:silent-cmd")
+				}
+				if cm.Silent && cm.Need != "" {
+					c.Hit("render:silent-call")
+				}
 			}
 			if t.Dir != "" {
 				c.Hit("shape:dir")
